@@ -4,7 +4,7 @@
   Mirrors, as they are in the tree (defects included):
   * libasn1compiler/asn1c_constraint.c
       `emit_range_comparison_code`          → `emitOne` / `emitRange` (+ `Cmp.eval`: the C comparison)
-      `native_long_sign`, `ulong_optimization`, `asn1c_type_fits_long` (asn1c_misc.c)
+      `native_long_sign`, `asn1c_type_fits_long` (asn1c_misc.c)
       `asn1c_emit_constraint_checking_code` → `genInt`, `genStr`, `genSize`
       `asn1c_emit_constraint_tables`, `emit_alphabet_check_loop` → `alphaCheck`
   * libasn1compiler/asn1c_C.c: which descriptor slot gets which checker (type level vs member
@@ -107,7 +107,8 @@ def fitsLong (rs : Cons) : IntRepr :=
   | none, some r => if r > 2147483647 || r < -2147483648 then .wide else .long
   | none, none => .long
 
-/-- native_long_sign: 1 unsigned, 0 = exactly `(0..4294967295)`, -1 signed -/
+/-- native_long_sign: 1 unsigned, 0 = exactly `(0..4294967295)` (also unsigned; the callers only
+    test `≥ 0` since the `ulong_optimization` shortcut is gone, F26), -1 signed -/
 def nativeLongSign (rs : Cons) : Int :=
   match overallLo rs, overallHi rs with
   | some l, none => if 0 ≤ l && l ≤ 2147483647 then 1 else -1
@@ -127,12 +128,14 @@ inductive Verdict where
   | ok
   /-- `-1`, the message starts with `name:` -/
   | fail (name : String) (why : Why)
-  /-- the generated function calls itself without progress (F48): never returns -/
-  | selfloop
 deriving Repr, DecidableEq
 
 /-- result of the generated `if(...)`: the test passed, failed, or nothing applicable was
-    emitted (`1 /* No applicable constraints whatsoever */`, the caller then falls back) -/
+    emitted (`1 /* No applicable constraints whatsoever */`, the caller then falls back: the
+    type-level function `<T>_constraint` to the checker of the underlying type
+    (`return NativeInteger_constraint(td, …)`, `OCTET_STRING_constraint`, `SET_OF_constraint`, …),
+    the member-level function to `td->encoding_constraints.general_constraints`, the checker of
+    the member's type) -/
 inductive Gen where
   | pass | fail (why : Why) | noTest
 deriving Repr, DecidableEq
@@ -149,15 +152,13 @@ def readInt (repr : IntRepr) (v : Int) : Option Int :=
 def genInt (rs : Cons) (v : Int) : Gen :=
   if (overallLo rs).isNone && (overallHi rs).isNone then .noTest      -- r_value dropped
   else
-    let sign := nativeLongSign rs
-    if sign == 0 then .pass                                            -- ulong_optimization (F26)
-    else
-      match readInt (fitsLong rs) v with
-      | none => .fail .valueTooLarge
-      | some x =>
-        let code := emitRange rs (if sign ≥ 0 then some 0 else none) none
-        if code.isEmpty then .noTest
-        else if code.eval x then .pass else .fail .constraintFailed
+    let sign := nativeLongSign rs                                      -- ≥ 0: `unsigned long value`
+    match readInt (fitsLong rs) v with
+    | none => .fail .valueTooLarge
+    | some x =>
+      let code := emitRange rs (if sign ≥ 0 then some 0 else none) none
+      if code.isEmpty then .noTest
+      else if code.eval x then .pass else .fail .constraintFailed
 
 /-! ### strings -/
 
@@ -380,21 +381,21 @@ def memberSel (id : String) (t : Ty) (v : Val) (occ : Verdict) : Verdict :=
   | _, _ => occ
 
 mutual
-/-- the checker stored in the descriptor named `nm` whose type is `t`;
-    `alias` = at least one reference hop lies between the descriptor and `t`
-    (`T2 ::= T1`, emitted through the reference path of the compiler) -/
-def descrChk (nm : String) (alias : Bool) : Ty → Val → Verdict
-  | .named _ t, v => descrChk nm true t v
+/-- the checker stored in the descriptor named `nm` whose type is `t` (directly, or through
+    reference hops `T2 ::= T1`: the reference path of the compiler and the path for named
+    SEQUENCE OF / SET OF types emit the same checker) -/
+def descrChk (nm : String) : Ty → Val → Verdict
+  | .named _ t, v => descrChk nm t v
   | .bool, .bool _ => .ok
   | .null, .null => .ok
   | .enumerated, .enum _ => .ok
   | .int none, .int _ => .ok                                         -- asn_generic_no_constraint
-  | .int (some rs), .int i => ofGen nm .selfloop .ok (genInt rs i)   -- fall back = itself (F48)
+  | .int (some rs), .int i => ofGen nm .ok .ok (genInt rs i)         -- fall back = NativeInteger_/INTEGER_constraint
   | .str k size alpha, v =>
       (match strValue k v with
        | some (bs, u) =>
          if size.isNone && alpha.isNone then builtinStr k nm bs u
-         else ofGen nm .selfloop .ok (genStr k size alpha bs u)
+         else ofGen nm (builtinStr k nm bs u) .ok (genStr k size alpha bs u)   -- fall back = skeleton checker
        | none => .fail nm .illTyped)
   | .seq ms, .struct fs => walkSeq nm ms fs
   | .set ms, .struct fs => walkSet nm ms fs
@@ -402,15 +403,15 @@ def descrChk (nm : String) (alias : Bool) : Ty → Val → Verdict
   | .choice _, .choiceNone => .fail nm .noChoice
   | .listOf _ size elem, .list vs =>
       let walk := firstFail (fun v => memberSel (elemId elem) elem v (occChk (elemId elem) elem v)) vs
-      match alias, size with
-      | true, some rs => ofGen nm .selfloop walk (genSize rs vs.length)
-      | _, _ => walk                                                  -- SIZE never looked at
+      match size with
+      | some rs => ofGen nm walk walk (genSize rs vs.length)             -- `<T>_constraint`; fall back = SET_OF_constraint
+      | none => walk                                                     -- SET_OF_constraint / SEQUENCE_OF_constraint
   | _, _ => .fail nm .illTyped
 /-- the checker of `elm->type` for a component `id` of type `t` -/
 def occChk (id : String) : Ty → Val → Verdict
-  | .named n t, v => descrChk n false t v
+  | .named n t, v => descrChk n t v
   | .int (some rs), .int i =>
-      if fitsLong rs == .ulong then ofGen id .selfloop .ok (genInt rs i)   -- own descriptor `id_N`
+      if fitsLong rs == .ulong then ofGen id .ok .ok (genInt rs i)         -- own descriptor `id_N`
       else .ok                                                            -- asn_DEF_NativeInteger / INTEGER
   | .int none, .int _ => .ok
   | .bool, .bool _ => .ok
@@ -427,25 +428,28 @@ def occChk (id : String) : Ty → Val → Verdict
   | .listOf _ _ elem, .list vs =>
       firstFail (fun v => memberSel (elemId elem) elem v (occChk (elemId elem) elem v)) vs
   | _, _ => .fail id .illTyped
-/-- SEQUENCE_constraint -/
+/-- SEQUENCE_constraint: every present component is checked in member order (member-level checker
+    when it has one, else the checker of its type — `memberSel`); the first non-zero verdict is
+    returned (`int ret = …; if(ret) return ret;` in both branches) -/
 def walkSeq (nm : String) : Members → List (String × Val) → Verdict
   | .nil, _ => .ok
   | .cons id opt t rest, fs =>
     match lookupField id fs with
     | none => if opt then walkSeq nm rest fs else .fail nm .absent
     | some v =>
-      if hasOwn t then
-        match memberSel id t v (occChk id t v) with
-        | .ok => walkSeq nm rest fs
-        | r => r
-      else occChk id t v                                              -- `return …` (F25)
-/-- SET_constraint: `return` in both branches -/
+      match memberSel id t v (occChk id t v) with
+      | .ok => walkSeq nm rest fs
+      | r => r
+/-- SET_constraint: the same loop -/
 def walkSet (nm : String) : Members → List (String × Val) → Verdict
   | .nil, _ => .ok
   | .cons id opt t rest, fs =>
     match lookupField id fs with
     | none => if opt then walkSet nm rest fs else .fail nm .absent
-    | some v => memberSel id t v (occChk id t v)
+    | some v =>
+      match memberSel id t v (occChk id t v) with
+      | .ok => walkSet nm rest fs
+      | r => r
 /-- CHOICE_constraint -/
 def walkAlt (nm : String) : Members → String → Val → Verdict
   | .nil, _, _ => .fail nm .noChoice
@@ -457,7 +461,7 @@ end
 def memberChk (id : String) (t : Ty) (v : Val) : Verdict := memberSel id t v (occChk id t v)
 
 /-- `asn_check_constraints(&asn_DEF_<name>, value, …)` for the type assignment `name ::= t` -/
-def check (name : String) (t : Ty) (v : Val) : Verdict := descrChk name false t v
+def check (name : String) (t : Ty) (v : Val) : Verdict := descrChk name t v
 
 /-! ### constraints.c: `_asn_i_ctfailcb` and `asn_check_constraints` -/
 
